@@ -24,6 +24,31 @@ def make_directed(row, case):
     """
     ops = [symm.decode(c) for c in row["symops"]]
     d = case["directed"]
+    if d.get("rod"):
+        # a polyyne rod H-(C)n-H lying in the ab plane at 45 degrees to a SHORT a axis: it spans several cells along a while
+        # staying 3.5 A away from its own a-translates; listed from either end, starting in / above / below the reference cell
+        u = np.array([np.cos(np.pi / 4), np.sin(np.pi / 4), 0.0])
+        off = [0.0, 1.06]
+        for k in range(d["ncarbon"] - 1):
+            off.append(off[-1] + (1.21 if k % 2 == 0 else 1.37))
+        off.append(off[-1] + 1.06)
+        n = len(off)
+        bonds = [(i, i + 1) for i in range(n - 1)]
+        # b is taken from a short list: the first value for which the rod clears all its own lattice translates (reference-decided)
+        for b in (16.0, 17.0, 18.3, 19.1, 21.7, 23.9):
+            cell = (5.0, b, 8.0 * max(1, len(ops) // 2), 90.0, 90.0, 90.0)
+            M = lattice.cell_matrix(*cell)
+            Mi = np.linalg.inv(M)
+            start = np.array(d["start"]) @ M
+            cart = start[None, :] - np.array(off)[:, None] * u[None, :]
+            frac = cart @ Mi
+            if d.get("swap"):
+                frac = frac[::-1]
+            asym = {"symbols": ["H"] + ["C"] * d["ncarbon"] + ["H"], "frac": frac, "molidx": [0] * n, "bonds": bonds, "cell": cell, "M": M}
+            imgs = mol.images(ops, asym)
+            if mol.precondition(asym, imgs)[0]:
+                break
+        return ops, cell, asym, imgs
     cell = mol.scaled_cell(row["number"], row["choice"], len(ops), 1, case.get("cellvar", 0))
     M = lattice.cell_matrix(*cell)
     Mi = np.linalg.inv(M)
@@ -228,6 +253,13 @@ def plan(row, tier, seed, full):
                         for swap in (False, True):
                             cases.append({"number": row["number"], "choice": row["choice"], "zkind": "directed", "centre": [0, 0, 0], "orient": 0, "seed": seed,
                                           "cellvar": cv, "directed": {"axis": axis, "side": side, "element": el, "swap": swap}})
+    # rods spanning 1.6 / 2.9 / 4.3 cells along a short axis (orthogonal cell, compatible with triclinic / monoclinic settings)
+    if row["number"] <= 15 and (full or row["index_in_number"] == 0):
+        for nc in (8, 16, 24):
+            for start in ([0.10, 0.95, 0.25], [3.10, 0.95, 0.25], [-2.90, 0.95, 0.25], [0.96, 0.07, 0.31]):
+                for swap in (False, True):
+                    cases.append({"number": row["number"], "choice": row["choice"], "zkind": "directed", "centre": [0, 0, 0], "orient": 0, "seed": seed,
+                                  "directed": {"rod": True, "ncarbon": nc, "start": start, "swap": swap}})
     return cases
 
 
